@@ -343,6 +343,8 @@ pub struct Stats {
     pub seek_compactions_recorded: u64,
     pub seek_compactions_by_model: u64,
     pub flush_levels_checked: u64,
+    pub persist_relation_checked: u64,
+    pub persist_directory_exact: u64,
     pub flushes_below_level0: u64,
 }
 
@@ -597,6 +599,25 @@ pub fn validate_state(drv: &mut crate::drv::Drv, db: &DB, st: &StateDump, probes
     if a != "true" {
         obs.push(Obs { sig: "c10:model-invariant-violated".into(), what: format!("the dumped state (levels {:?}) does not satisfy the invariant the read-path theorem needs (answer: {a})", brief(&st.levels)), at });
         return;
+    }
+    // the relation between the instance and its disk image that the composition theorems
+    // (Rain/Props/Persist.lean) maintain, evaluated on this real state: the image is rebuilt from the
+    // recorded filesystem operations (only at quiescent points: no immutable memtable)
+    if st.imm.is_none() {
+        let stream = TABLE_SIZES.with(|f| f.borrow().as_ref().and_then(|fs| crate::crash::model_stream(fs)));
+        if let Some(stream) = stream {
+            let ops = stream.iter().map(|x| x.0.as_str()).collect::<Vec<_>>().join(" ");
+            let a = drv.ask(&format!("persist.rel {head} {} {} - {ops}", st.manifest_number, st.wal_number));
+            if a != "no-model" && a != "bad-request" {
+                stats.persist_relation_checked += 1;
+                if a.contains("tight=true") {
+                    stats.persist_directory_exact += 1;
+                }
+                if !a.starts_with("rel=true") {
+                    drift.push(format!("persisted-state relation: the disk image rebuilt from the recorded filesystem operations and the dumped instance state (levels {:?}, manifest {}, wal {}) are not in the relation Rel of Rain/Lemmas/Persist.lean: {}", brief(&st.levels), st.manifest_number, st.wal_number, a.chars().take(400).collect::<String>()));
+                }
+            }
+        }
     }
     if probes.is_empty() {
         return;
